@@ -139,7 +139,7 @@ class Executor:
         built, dumps = {}, {}
         try:
             if 'legs' in st and st['op'] in ('from_ndarray', 'zeros'):
-                built['legs'] = [self.io.make_aleg(l) for l in st['legs']]
+                built['legs'] = [self.io.make_aleg(l, st.get('names')) for l in st['legs']]
                 dumps['legs'] = [self.io.dump_aleg(l) for l in built['legs']]
             if st['op'] == 'combine_legs' and st.get('pipes') is not None:
                 built['pipes'] = [None if p is None else self.given_pipe(vals, p) for p in st['pipes']]
@@ -469,6 +469,9 @@ class Executor:
                 return r[()], None, None
             return r, [la[k] for k in keep], None
         if op == 'getitem_int':
+            n = len(st['inds'])
+            if n < a.rank:      # fewer integers than legs: the sub-tensor; remaining legs keep labels and charges
+                return A[tuple(st['inds'])], la[n:], legs_phys(a)[n:]
             return A[tuple(st['inds'])], None, None
         if op == 'scale_axis':
             k = ax(a, st['axis'])
@@ -679,6 +682,7 @@ class Executor:
     def run_case(self, case, observe=True):
         npc, io = self.npc, self.io
         self.entered.clear()
+        io.set_default_names(case.get('names'))
         out = dict(operands=[], steps=[])
         vals = []
         for d in case['operands']:
